@@ -147,7 +147,15 @@ META = {
         "note": "Garbage collection and the still-running built-in controller are not simulated beyond the injected conflicts.",
         "technique": "fault injection enumerated over API-call positions of generated worlds (rapid), differential against an uninterrupted twin",
     },
+    "C18": {
+        "text": "A differential check of the revision encoder against an independent re-implementation of the built-in controller's, over the whole pod "
+                "template schema, plus end-to-end migrations (real Upgrade helper, garbage-collector orphaning in any order, crashes) judged on "
+                "'no new revision, same update revision, no up-to-date pod deleted, marked revisions adopted'.",
+        "design_ref": "DESIGN.md section 3, C18",
+        "note": "Byte equality is differential, so the 2^53 caveat of getPatch does not restrict the domain here.",
+        "technique": "differential property-based testing (rapid reflection generator) + stateful migration scenarios",
+    },
 }
 
 _pending = "check not built yet in this round of the build; planned per DESIGN.md section 3 (generated-input search applies)"
-NOT_APPLICABLE = [{"property_id": p, "reason": _pending} for p in ALL if p not in META]
+NOT_APPLICABLE = [{"property_id": p, "reason": _pending} for p in ALL if p not in META]  # empty once all are built
